@@ -131,18 +131,38 @@ class _iadd_u:
 
 @contract(HB + ".densities", props=["C16"], name="Histogram1D.densities[any bin count]")
 class _dens_u:
+    def configs():
+        return [{"dtype": "float64"}, {"dtype": "int64"}, {"dtype": "int16"}]
+
     def inputs(b):
         n = nbins(b)
-        return dict(self=hist1d_t(b, "h", n, "float64"))
+        b.assume(n >= 1)
+        return dict(self=hist1d_t(b, "h", n, b.cfg.dtype))
+
+    NAMES = ("bin_sizes", "bin_left_edges", "bin_right_edges", "total_width", "total", "min_edge", "max_edge", "cumulative_frequencies")
 
     def invoke(I, fn, a, cfg):
-        if I is not None:
-            return (I.getattr(a.self, "densities"), I.getattr(a.self, "bin_widths"), I.getattr(a.self, "bin_centers"))
-        return (a.self.densities, a.self.bin_widths, a.self.bin_centers)
+        get = (lambda n: I.getattr(a.self, n)) if I is not None else (lambda n: getattr(a.self, n))
+        return (get("densities"), get("bin_widths"), get("bin_centers"), {n: get(n) for n in _dens_u.NAMES})
+
+    @ensures("sizes_edges_total_width_and_running_sums_for_every_bin")
+    def _(a, old, result):
+        g = result[3]
+        n = count_of(old.self)
+        f = Fq(old.self)
+        bins = attr(attr(old.self, "_binnings")[0], "_bins")
+        s, l, r, cum = g["bin_sizes"], g["bin_left_edges"], g["bin_right_edges"], g["cumulative_frequencies"]
+        from pyvc.spec import sumr_t
+        wide = np.ones(1, dtype_of(f)).cumsum().dtype
+        return And(shape_of(s)[0] == n, shape_of(l)[0] == n, shape_of(r)[0] == n, shape_of(cum)[0] == n,
+                   forall(0, n, lambda i: And(s[i] == bins[i, 1] - bins[i, 0], l[i] == bins[i, 0], r[i] == bins[i, 1],
+                                              cum[i] == sumr_t(f, 0, i + 1))),
+                   g["total_width"] == total_t(result[1]), g["total"] == total_t(f), cum[n - 1] == g["total"],
+                   g["min_edge"] == bins[0, 0], g["max_edge"] == bins[n - 1, 1], dtype_of(cum) == wide)
 
     @ensures("densities_times_widths_are_frequencies_for_every_bin")
     def _(a, old, result):
-        d, w, c = result
+        d, w, c = result[:3]
         n = count_of(old.self)
         f = Fq(old.self)
         bins = attr(attr(old.self, "_binnings")[0], "_bins")
